@@ -718,9 +718,37 @@ class Translator:
         for s in stmts:
             if isinstance(s, ast.FunctionDef):
                 env["local_funcs"][s.name] = {"node": s, "touches_self": any(_is_self(x) for x in ast.walk(s))}
-        for s in stmts:
+        i = 0
+        while i < len(stmts):
+            s = stmts[i]
+            nxt = stmts[i + 1] if i + 1 < len(stmts) else None
+            chk = self._callchk(s, nxt, env)
+            if chk is not None:
+                out += chk
+                i += 2
+                continue
             out += self.stmt(s, env)
+            i += 1
         return ("Seq", out)
+
+    def _callchk(self, s, nxt, env):
+        """r = self.helper(..) | super().m(..) ;  if not r: <block>   ->  CallChk helper-body block"""
+        if not (isinstance(s, ast.Assign) and len(s.targets) == 1 and isinstance(s.targets[0], ast.Name)
+                and isinstance(s.value, ast.Call) and isinstance(nxt, ast.If) and not nxt.orelse
+                and isinstance(nxt.test, ast.UnaryOp) and isinstance(nxt.test.op, ast.Not)
+                and isinstance(nxt.test.operand, ast.Name) and nxt.test.operand.id == s.targets[0].id):
+            return None
+        reads, pre = self.expr_effects(s.value, env)
+        if len(pre) != 1 or pre[0][0] != "Call":
+            return None
+        out = [("Read", reads)] if reads else []
+        env2 = dict(env)
+        env2["falsy_names"] = set(env.get("falsy_names", ())) | {s.targets[0].id}   # inside `if not r:` r is falsy
+        if any(isinstance(x, (ast.Assign, ast.AugAssign, ast.AnnAssign, ast.NamedExpr)) and
+               any(isinstance(t, ast.Name) and t.id == s.targets[0].id for t in ast.walk(x)) for b in nxt.body for x in ast.walk(b)):
+            env2["falsy_names"].discard(s.targets[0].id)
+        out.append(("CallChk", pre[0][1], self.block(nxt.body, env2)))
+        return out
 
     def emit_eval(self, e, env):
         reads, pre = self.expr_effects(e, env)
@@ -830,7 +858,7 @@ class Translator:
             return out
         if isinstance(s, ast.Return):
             reads, pre = self.expr_effects(s.value, env)
-            may = not _certainly_falsy(s.value)
+            may = not (_certainly_falsy(s.value) or (isinstance(s.value, ast.Name) and s.value.id in env.get("falsy_names", ())))
             if pre:
                 return ([("Read", reads)] if reads else []) + pre + [("Ret", may, [])]
             return [("Ret", may, reads)]
@@ -931,6 +959,8 @@ def ir_writes(p):
         return ir_writes(p[2])
     if k == "Call":
         return ir_writes(p[1])
+    if k == "CallChk":
+        return ir_writes(p[1]) + ir_writes(p[2])
     return []
 
 
@@ -948,6 +978,8 @@ def ir_reads(p):
         return list(p[1]) + ir_reads(p[2])
     if k == "Call":
         return ir_reads(p[1])
+    if k == "CallChk":
+        return ir_reads(p[1]) + ir_reads(p[2])
     if k == "Ret":
         return list(p[2])
     return []
@@ -987,6 +1019,8 @@ def simplify(p):
         if not _has_ret(b):
             return b
         return ("Call", b)
+    if k == "CallChk":
+        return ("CallChk", simplify(p[1]), simplify(p[2]))
     return p
 
 
@@ -1000,8 +1034,8 @@ def _has_ret(p):
         return _has_ret(p[2]) or _has_ret(p[3])
     if k == "Loop":
         return _has_ret(p[2])
-    if k == "Call":
-        return False
+    if k == "CallChk":
+        return _has_ret(p[2])
     return False
 
 
@@ -1027,6 +1061,8 @@ def to_coq(p, ind=4):
         return f"Loop {fl(p[1])}\n{pad}  ({to_coq(p[2], ind + 4)})"
     if k == "Call":
         return f"Call ({to_coq(p[1], ind + 2)})"
+    if k == "CallChk":
+        return f"CallChk\n{pad}  ({to_coq(p[1], ind + 4)})\n{pad}  ({to_coq(p[2], ind + 4)})"
     raise AssertionError(k)
 
 
@@ -1040,6 +1076,8 @@ def ir_size(p):
         return 1 + ir_size(p[2])
     if k == "Call":
         return 1 + ir_size(p[1])
+    if k == "CallChk":
+        return 1 + ir_size(p[1]) + ir_size(p[2])
     return 1
 
 
@@ -1107,6 +1145,7 @@ def rule_cfgs(repo):
     if base is None:
         return "", [], ["RewriteRuleClassBase not found in " + BASE_FILES[0]]
     rules = []
+    abstract = []
     for (rel, name), ci in sorted(table.classes.items()):
         if ci is base or rel in BASE_FILES:
             continue
@@ -1123,6 +1162,10 @@ def rule_cfgs(repo):
         try:
             caches = find_cache_fields(table, ci)
             tr = Translator(table, ci, caches)
+            pc, pm = tr.find("pattern")
+            if pm is None or pc.rel in BASE_FILES:
+                abstract.append(f"{rel}:{name}")   # PatternBase.pattern is abstract: the class cannot be instantiated
+                continue
             check = simplify(tr.method_cfg("check"))
             rewrite = simplify(tr.method_cfg("rewrite"))
             setup = simplify(tr.method_cfg("setup"))
@@ -1165,6 +1208,7 @@ def rule_cfgs(repo):
         out.append("Definition passes : list rule := [pass_fold_constants].\n")
     else:
         out.append("Definition passes : list rule := [].\n")
+    rule_cfgs.abstract = abstract
     return "\n".join(out), rules + ([pass_rule] if pass_rule else []), problems
 
 
